@@ -1,4 +1,4 @@
-(* L3/Sqrt.v — model of decimal_sqrt.go: Sqrt, sqrtInverse, newDecimal.
+(* L3/Sqrt.v — model of decimal_sqrt.go: Sqrt, sqrtRound, sqrtInverse, newDecimal.
    Definitions only.  The float64 initial guess
      1 / math.Sqrt(float64(top/10) / float64(pow10(18-exp)))
    is computed by the correctly rounded binary64 operations of L3/Bin.v. *)
@@ -53,15 +53,56 @@ Fixpoint newton (fuel : nat) (lim : Z) (z x t u v : Dec) : ores :=
       else OkR t
   end.
 
-(* z.sqrtInverse(z) *)
-Definition sqrtInverse (z : Dec) : ores :=
-  match sqrt_guess z with
+(* z.sqrtInverse(x): z supplies the working precision and mode, x the operand *)
+Definition sqrtInverse (z x : Dec) : ores :=
+  match sqrt_guess x with
   | None => CrashR
   | Some g =>
       bindT z (SetFloat64_fl (newDecimal (prec z)) g) (fun t =>
-      bindT z (newton 40 (u32 (prec z + 2)) z z t (newDecimal (prec z)) (newDecimal (prec z))) (fun t =>
-      Mul z z t))
+      bindT z (newton 40 (u32 (prec z + 2)) z x t (newDecimal (prec z)) (newDecimal (prec z))) (fun t =>
+      Mul z x t))
   end.
+
+(* a fresh temporary of precision p: new(Decimal).SetPrec(p) *)
+Definition tmpDec (p : Z) : Dec := mkDec [] 0 p ToNearestEven Exact Fzero false.
+
+(* for sq.Mul(z, z).Cmp(x) > 0 { z.Sub(z, ulp) }
+   Running out of fuel = more than `fuel` iterations of the Go loop *)
+Fixpoint sqrt_down (fuel : nat) (psq : Z) (z x ulp : Dec) : ores :=
+  match fuel with
+  | O => CrashR
+  | S k =>
+      bindT z (Mul (tmpDec psq) z z) (fun sq =>
+      if Cmp sq x =? 1 then bindR (Sub true false z z ulp) (fun z' => sqrt_down k psq z' x ulp)
+      else OkR z)
+  end.
+
+(* for sq.Mul(t.Add(z, ulp), t).Cmp(x) <= 0 { z.Set(t) } *)
+Fixpoint sqrt_up (fuel : nat) (psq pt : Z) (z x ulp : Dec) : ores :=
+  match fuel with
+  | O => CrashR
+  | S k =>
+      bindT z (Arith.Add false false (tmpDec pt) z ulp) (fun t =>
+      bindT z (Mul (tmpDec psq) t t) (fun sq =>
+      if Cmp sq x <=? 0 then bindR (Set_ false z t) (fun z' => sqrt_up k psq pt z' x ulp)
+      else OkR z))
+  end.
+
+Definition sqrt_fuel : nat := 200.
+
+(* z.sqrtRound(x, prec, mode) *)
+Definition sqrtRound (z x : Dec) (p : Z) (md : mode) : ores :=
+  let ulp := ores_get (NewDecimal 1 (exp z - prec z)) in
+  let half := ores_get (NewDecimal 5 (exp z - prec z - 1)) in
+  let z := with_prec z (u32 (prec z + 1)) in                    (* z.prec++ *)
+  let psq := let q := 2 * prec z + 2 in if MaxPrec <? q then MaxPrec else q in
+  let pt := let q := prec z + 1 in if MaxPrec <? q then MaxPrec else q in
+  bindR (sqrt_down sqrt_fuel psq z x ulp) (fun z =>
+  bindR (sqrt_up sqrt_fuel psq pt z x ulp) (fun z =>
+  bindT z (Mul (tmpDec psq) z z) (fun sq =>
+  bindR (if Cmp sq x =? 0 then OkR z
+         else Arith.Add true false (with_prec z (u32 (prec z + 2))) (with_prec z (u32 (prec z + 2))) half) (fun z =>
+  SetPrec (with_mode z md) p)))).
 
 (* z.Sqrt(x); same: z and x are the same variable *)
 Definition Sqrt (same : bool) (z x : Dec) : ores :=
@@ -79,6 +120,11 @@ Definition Sqrt (same : bool) (z x : Dec) : ores :=
         let z := if r =? 1 then with_exp z (i32 (exp z + 1))
                  else if r =? -1 then with_exp z (i32 (exp z - 1))
                  else z in
-        bindR (sqrtInverse z) (fun z => SetMantExp true z z (Z.quot b 2)))
+        let x0 := z in                                           (* new(Decimal).Copy(z) *)
+        let z := with_mode (with_prec z (u32 (p + 2))) ToZero in
+        bindR (sqrtInverse z x0) (fun z =>
+        bindR (sqrtRound z x0 p md) (fun z =>
+        let a := acc z in
+        bindR (SetMantExp true z z (Z.quot b 2)) (fun z => OkR (with_acc z a)))))
     | _ => OkR (with_neg (with_form (with_acc z Exact) (dform x)) (neg x))
     end.
